@@ -59,6 +59,14 @@ pub struct HistPlan {
     /// up (and the first ones create it) through with_label_values
     #[serde(default)]
     pub lazy_child: bool,
+    /// every thread keeps ONE local histogram for all its local batches (each batch ends with an
+    /// explicit flush) instead of a fresh one per batch: a flush must leave the handle as good as new
+    #[serde(default)]
+    pub persistent_local: bool,
+}
+thread_local! {
+    /// the per-thread local histogram of `persistent_local` plans (simulated threads are fresh OS threads)
+    static PLOCAL: std::cell::RefCell<Option<prometheus::local::LocalHistogram>> = std::cell::RefCell::new(None);
 }
 fn bounds_of(plan: &HistPlan) -> Vec<f64> {
     let mut b: Vec<f64> = plan.bound_exps.iter().map(|e| (1u64 << e) as f64).collect();
@@ -180,11 +188,13 @@ fn gen_plan(seed: u64, long: bool) -> HistPlan {
     }
     let negate = r.chance(15);
     let lazy_child = matches!(container, Container::Vec | Container::VecRegistry) && r.chance(35);
-    HistPlan { env, bound_exps: exps, container, threads, negate, lazy_child }
+    let persistent_local = !lazy_child && r.chance(30);
+    HistPlan { env, bound_exps: exps, container, threads, negate, lazy_child, persistent_local }
 }
 
 struct Objects {
     neg: bool,
+    persistent: bool,
     lazy: bool,
     bounds: Vec<f64>,
     h: Option<Histogram>,
@@ -218,7 +228,7 @@ fn build(plan: &HistPlan) -> Objects {
             } else {
                 None
             };
-            Objects { neg, lazy: false, bounds: bounds_of(plan), h: Some(h), hv: None, reg }
+            Objects { neg, persistent: plan.persistent_local, lazy: false, bounds: bounds_of(plan), h: Some(h), hv: None, reg }
         }
         _ => {
             let hv = HistogramVec::new(opts, &["l"]).unwrap();
@@ -230,7 +240,7 @@ fn build(plan: &HistPlan) -> Objects {
             } else {
                 None
             };
-            Objects { neg, lazy: plan.lazy_child, bounds: bounds_of(plan), h, hv: Some(hv), reg }
+            Objects { neg, persistent: plan.persistent_local, lazy: plan.lazy_child, bounds: bounds_of(plan), h, hv: Some(hv), reg }
         }
     }
 }
@@ -257,6 +267,18 @@ fn exec_op(o: &Objects, op: &HOp) -> HRes {
     match op {
         HOp::Observe(k) => {
             o.hist().observe(val_of(o.neg, *k));
+            HRes::None
+        }
+        HOp::LocalBatch { ks, .. } if o.persistent => {
+            PLOCAL.with(|p| {
+                let mut p = p.borrow_mut();
+                let l = p.get_or_insert_with(|| o.hist().local());
+                for k in ks {
+                    l.observe(val_of(o.neg, *k));
+                }
+                l.flush();
+                l.flush();
+            });
             HRes::None
         }
         HOp::LocalBatch { ks, explicit, clone_mid } => {
@@ -351,7 +373,7 @@ fn execute(prop: &'static str, plan: &HistPlan, mode: Mode) -> RunOut {
         };
         match (op, r) {
             (HOp::Observe(k), _) => obs.push(Obs { id: *id, inv, ret, bits: 1u64 << k, thread: t, pos: i }),
-            (HOp::LocalBatch { ks, clone_mid, .. }, _) if *clone_mid && ks.len() >= 2 => {
+            (HOp::LocalBatch { ks, clone_mid, .. }, _) if *clone_mid && ks.len() >= 2 && !plan.persistent_local => {
                 obs.push(Obs { id: *id, inv, ret, bits: 1u64 << ks[0], thread: t, pos: i });
                 obs.push(Obs { id: *id, inv, ret, bits: ks[1..].iter().fold(0, |a, k| a | 1u64 << k), thread: t, pos: i });
             }
